@@ -966,7 +966,7 @@ func main() {
 			e.fullCheck(depth{allSingles: n <= 260, multi: 10, allWitness: n <= 260, updates: 2, everyStep: false, pebbleFirst: k.Index%2 == 0})
 		})
 
-		c.Cases("rand", c.N(640, 16000), func(k *mon.Case) {
+		c.Cases("rand", c.N(960, 8000), func(k *mon.Case) {
 			var n int
 			switch k.R.Intn(4) {
 			case 0:
@@ -1028,7 +1028,7 @@ func main() {
 		})
 
 		// lists with repeated leaf data: roots (incremental = batch = reference) and completeness
-		c.Cases("dups", c.N(320, 6000), func(k *mon.Case) {
+		c.Cases("dups", c.N(480, 4000), func(k *mon.Case) {
 			n := 2 + k.R.Intn(60)
 			salt := uint64(k.R.Int63())
 			base := makeList(salt, 1+k.R.Intn(n), true)
@@ -1079,7 +1079,7 @@ func main() {
 			psizes = append(psizes, p-1, p, p+1)
 		}
 		psizes = append(psizes, 0, 1, 255, 256, 257, 258, 300, 511, 513, 1000, 4097, 5000)
-		nPredict := len(psizes) + c.N(200, 4000)
+		nPredict := len(psizes) + c.N(200, 3000)
 		c.Cases("predict", nPredict, func(k *mon.Case) {
 			var n int
 			if k.Index < len(psizes) {
